@@ -328,6 +328,11 @@ func runScope(handler http.Handler, path, depth, form string) string {
 	if depth != "" {
 		req.Header.Set("Depth", depth)
 	}
+	if form == "emptyx" {
+		// an empty body of undeclared length (chunked transfer coding with only the last chunk)
+		req.ContentLength = -1
+		req.Body = io.NopCloser(onlyReader{strings.NewReader("")})
+	}
 	rec := httptest.NewRecorder()
 	handler.ServeHTTP(rec, req)
 	res := rec.Result()
@@ -493,7 +498,7 @@ func famPfScope(o *Out, r *RNG, thorough bool) {
 					continue
 				}
 				for _, depth := range []string{"", "0", "1", "infinity", "2"} {
-					for _, form := range []string{"allprop", "propname", "prop", "noform", "empty"} {
+					for _, form := range []string{"allprop", "propname", "prop", "noform", "empty", "emptyx"} {
 						if !thorough && form != "allprop" && depth != "1" && depth != "" {
 							continue
 						}
@@ -503,7 +508,7 @@ func famPfScope(o *Out, r *RNG, thorough bool) {
 			}
 		}
 		for _, depth := range []string{"", "0", "1"} {
-			for _, form := range []string{"allprop", "prop", "noform", "propname", "empty"} {
+			for _, form := range []string{"allprop", "prop", "noform", "propname", "empty", "emptyx"} {
 				emitScope(o, "principal", h, "principal", h.principal, depth, form)
 			}
 		}
